@@ -9,11 +9,12 @@ pub mod c05;
 pub mod c06;
 pub mod c07;
 pub mod c08;
+pub mod c13;
 pub mod families;
 pub mod c16;
 
 pub fn all() -> Vec<Check> {
-    vec![c01::check(), c03::check(), c04::check(), c05::check(), c06::check(), c07::check(), c08::check(), c16::check()]
+    vec![c01::check(), c03::check(), c04::check(), c05::check(), c06::check(), c07::check(), c08::check(), c13::check(), c16::check()]
 }
 
 pub fn child_main(_args: &[String]) -> i32 {
